@@ -688,8 +688,10 @@ impl Inner {
         }
 
         // The GOAWAY process has begun. All streams with a greater ID than
-        // specified as part of GOAWAY should be ignored.
-        if id > self.actions.recv.max_stream_id() {
+        // specified as part of GOAWAY should be ignored. That identifier is
+        // about streams the peer initiates: a stream we pushed can still be
+        // refused or cancelled by the peer, whatever its identifier.
+        if id > self.actions.recv.max_stream_id() && !self.counts.peer().is_local_init(id) {
             tracing::trace!(
                 "id ({:?}) > max_stream_id ({:?}), ignoring RST_STREAM",
                 id,
